@@ -4,6 +4,7 @@ import (
 	"fmt"
 	"reflect"
 	"strings"
+	"time"
 
 	j "github.com/mfcochauxlaberge/jsonapi"
 
@@ -14,7 +15,7 @@ import (
 
 var c18T = TypeD{Name: "t",
 	Attrs: []AttrD{{"s", Kind{j.AttrTypeString, false}}, {"y", Kind{j.AttrTypeBytes, false}}, {"py", Kind{j.AttrTypeBytes, true}},
-		{"ps", Kind{j.AttrTypeString, true}}, {"pi", Kind{j.AttrTypeInt, true}}, {"w", Kind{j.AttrTypeTime, false}}},
+		{"ps", Kind{j.AttrTypeString, true}}, {"pi", Kind{j.AttrTypeInt, true}}, {"w", Kind{j.AttrTypeTime, false}}, {"pw", Kind{j.AttrTypeTime, true}}},
 	Rels: []RelD{{"one", true, "u", ""}, {"many", false, "u", ""}, {"single", false, "u", ""}}}
 
 // c18Shapes: the full type, a type without relationships, a type without attributes
@@ -46,6 +47,9 @@ func c18SourceV(soft bool, shape string, variant int) j.Resource {
 		c18SetIf(r, "ps", Ptr(""))
 		c18SetIf(r, "pi", Ptr(int(0)))
 		c18SetIf(r, "many", []string{})
+		// the zero instant, read in a zone, and a pointer to it: values like any other
+		c18SetIf(r, "w", time.Time{}.In(zPlus))
+		c18SetIf(r, "pw", Ptr(time.Time{}))
 	}
 	return r
 }
@@ -60,6 +64,7 @@ func c18SourceV0(soft bool, shape string) j.Resource {
 	c18SetIf(r, "ps", Ptr("p"))
 	c18SetIf(r, "pi", Ptr(int(7)))
 	c18SetIf(r, "w", TimeAlph[4])
+	c18SetIf(r, "pw", Ptr(TimeAlph[5]))
 	c18SetIf(r, "one", "x")
 	c18SetIf(r, "many", []string{"c", "a", "b"})
 	c18SetIf(r, "single", []string{"only"})
@@ -173,6 +178,17 @@ func c18Muts() []c18Mut {
 		{"Get(single)[0] = \"MUT\"", func(r j.Resource) {
 			if l, ok := r.Get("single").([]string); ok && len(l) > 0 {
 				l[0] = "MUT"
+			}
+		}},
+		// a program extends a list it read from the resource and stores it back
+		{"Set(many, append(Get(many), x1, x2))", func(r j.Resource) {
+			if l, ok := r.Get("many").([]string); ok {
+				r.Set("many", append(l, "x1", "x2"))
+			}
+		}},
+		{"Set(y, append(Get(y), 7, 7, 7))", func(r j.Resource) {
+			if b, ok := r.Get("y").([]byte); ok {
+				r.Set("y", append(b, 7, 7, 7))
 			}
 		}},
 		{"(*Get(py))[0] = 0xEE", func(r j.Resource) {
@@ -606,7 +622,7 @@ func init() {
 		Harness{Name: "C18/first-wrapper", Body: c18FirstWrapper}, Harness{Name: "C18/soft-newfunc", Body: c18SoftNewFunc})
 	Register(&Prop{
 		ID: "C18",
-		Rule: "Engine B: for {soft, wrapped} x {Copy(), New()} (soft also for a type without relationships and a type without attributes, wrapped also for a struct with plain-value attributes only) a source resource holding a byte string, a pointer to a byte string, nullable pointers, a time and an unsorted 3-element to-many list and a 1-element to-many list is derived, then ALL histories (depth <= 3 quick / 4 thorough) of 20 mutations applied to either side plus the operation 'read everything from both' (Set of several fields and id, AddAttr/AddRel/RemoveField on its type, edits through the soft resource's exported Type pointer, deleting from / adding to the maps returned by Attrs(), Rels() and GetType(), MarshalResource with relationship data (sorts in place), Filter '=' on the to-many (sorts in place), writing element 0 of the slices obtained from Get for []byte, []string and *[]byte) are explored with deep-snapshot de-duplication; nothing is read between the operations of a history (reading is an operation; a second, one level shallower search reads both sides around every step): after the last mutation everything readable from the OTHER side must equal what an equal pair that underwent all but that mutation shows. Same for Type.Copy under AddAttr/RemoveAttr/AddRel/RemoveRel (also for a type whose map keys are not its fields' names). Engine A: the derived object right after derivation equals its source and marshals identically, also when its byte strings are empty but non-nil (Copy) / is zero-valued (New). Every state is a distinct pair of heaps",
+		Rule: "Engine B: for {soft, wrapped} x {Copy(), New()} (soft also for a type without relationships and a type without attributes, wrapped also for a struct with plain-value attributes only) a source resource holding a byte string, a pointer to a byte string, nullable pointers, a time and an unsorted 3-element to-many list and a 1-element to-many list is derived, then ALL histories (depth <= 3 quick / 4 thorough) of 22 mutations applied to either side plus the operation 'read everything from both' (Set of several fields and id, AddAttr/AddRel/RemoveField on its type, edits through the soft resource's exported Type pointer, deleting from / adding to the maps returned by Attrs(), Rels() and GetType(), MarshalResource with relationship data (sorts in place), Filter '=' on the to-many (sorts in place), writing element 0 of the slices obtained from Get for []byte, []string and *[]byte, appending to a slice obtained from Get and storing it back) are explored with deep-snapshot de-duplication; nothing is read between the operations of a history (reading is an operation; a second, one level shallower search reads both sides around every step): after the last mutation everything readable from the OTHER side must equal what an equal pair that underwent all but that mutation shows. Same for Type.Copy under AddAttr/RemoveAttr/AddRel/RemoveRel (also for a type whose map keys are not its fields' names). Engine A: the derived object right after derivation equals its source and marshals identically, also when its byte strings are empty but non-nil (Copy) / is zero-valued (New). Every state is a distinct pair of heaps",
 		Assumptions: []string{"writing through a nullable pointer obtained from Get (other than the slice behind *[]byte) is not judged: the statement lists slices only"},
 		Harnesses: hs,
 	})
